@@ -37,7 +37,7 @@ fn c17_select_in_word_false_twin() {
     assert!(select_in_word(w, k) < 64);
 }
 
-// @h props=C17,C04:t tier=quick family=K mem=8 timeout=2400 role=utils.select_in_word_u128
+// @h props=C17,C04:t tier=quick family=K mem=5 timeout=2400 role=utils.select_in_word_u128
 // @bound all 2^128 words w, all k < 128; specified through the 64-bit law applied to the half that holds the answer
 // @funcs utils::select_in_word_u128, utils::select_in_word
 #[kani::proof]
@@ -197,31 +197,31 @@ macro_rules! partition_law {
     };
 }
 
-// @h props=C17,C04:t,C01:t,C19:t tier=quick family=K mem=10 timeout=1200 stubs=slice::copy_from_slice->elementwise_loop role=utils.stable_partition.u8
+// @h props=C17,C04:t,C01:t,C19:t tier=quick family=K mem=5 timeout=1200 stubs=slice::copy_from_slice->elementwise_loop role=utils.stable_partition.u8
 // @bound slices of length 2, contents and shift (< 8) symbolic; vs. a fixed-array stable partition
 // @funcs utils::stable_partition_of_4, utils::stable_partition_of_2
 partition_law!(c17_partition_u8_n2, u8, 8, 2, 6, quick);
-// @h props=C17,C04:t tier=quick family=K mem=10 timeout=1200 stubs=slice::copy_from_slice->elementwise_loop role=utils.stable_partition.u16
+// @h props=C17,C04:t tier=quick family=K mem=5 timeout=1200 stubs=slice::copy_from_slice->elementwise_loop role=utils.stable_partition.u16
 // @bound slices of length 2, contents and shift (< 16) symbolic
 // @funcs utils::stable_partition_of_4, utils::stable_partition_of_2
 partition_law!(c17_partition_u16_n2, u16, 16, 2, 6, quick);
-// @h props=C17,C04:t tier=quick family=K mem=10 timeout=1200 stubs=slice::copy_from_slice->elementwise_loop role=utils.stable_partition.u32
+// @h props=C17,C04:t tier=quick family=K mem=5 timeout=1200 stubs=slice::copy_from_slice->elementwise_loop role=utils.stable_partition.u32
 // @bound slices of length 2, contents and shift (< 32) symbolic
 // @funcs utils::stable_partition_of_4, utils::stable_partition_of_2
 partition_law!(c17_partition_u32_n2, u32, 32, 2, 6, quick);
-// @h props=C17,C04:t tier=quick family=K mem=10 timeout=1200 stubs=slice::copy_from_slice->elementwise_loop role=utils.stable_partition.u64
+// @h props=C17,C04:t tier=quick family=K mem=5 timeout=1200 stubs=slice::copy_from_slice->elementwise_loop role=utils.stable_partition.u64
 // @bound slices of length 2, contents and shift (< 64) symbolic
 // @funcs utils::stable_partition_of_4, utils::stable_partition_of_2
 partition_law!(c17_partition_u64_n2, u64, 64, 2, 6, quick);
-// @h props=C17,C04:t tier=quick family=K mem=10 timeout=1200 stubs=slice::copy_from_slice->elementwise_loop role=utils.stable_partition.usize
+// @h props=C17,C04:t tier=quick family=K mem=5 timeout=1200 stubs=slice::copy_from_slice->elementwise_loop role=utils.stable_partition.usize
 // @bound slices of length 2, contents and shift (< 64) symbolic
 // @funcs utils::stable_partition_of_4, utils::stable_partition_of_2
 partition_law!(c17_partition_usize_n2, usize, 64, 2, 6, quick);
-// @h props=C17,C04:t,C01:t,C19:t tier=quick family=K mem=12 timeout=1500 stubs=slice::copy_from_slice->elementwise_loop role=utils.stable_partition.u128
+// @h props=C17,C04:t,C01:t,C19:t tier=quick family=K mem=5 timeout=1500 stubs=slice::copy_from_slice->elementwise_loop role=utils.stable_partition.u128
 // @bound slices of length 1, contents and shift (< 128) symbolic (length 2 on u128 exceeds 28 GB)
 // @funcs utils::stable_partition_of_4, utils::stable_partition_of_2
 partition_law!(c17_partition_u128_n1, u128, 128, 1, 6, quick);
-// @h props=C17 tier=quick family=K mem=10 timeout=1200 stubs=slice::copy_from_slice->elementwise_loop role=utils.stable_partition.u8
+// @h props=C17 tier=quick family=K mem=5 timeout=1200 stubs=slice::copy_from_slice->elementwise_loop role=utils.stable_partition.u8
 // @bound slices of length 3, contents and shift (< 8) symbolic
 // @funcs utils::stable_partition_of_4, utils::stable_partition_of_2
 partition_law!(c17_partition_u8_n3, u8, 8, 3, 6, quick);
